@@ -80,12 +80,12 @@ func scraperType(i int) component.Type { return component.MustNewType(fmt.Sprint
 func runS(s SScript) (nontrivial bool, k string, f *vt.Finding) {
 	k = hashKey(s)
 	cS.HangGuard(60*time.Second, s, "hang/scraper-controller", func() {
-		nontrivial, f = runSInner(&s)
+		nontrivial, f = runSInner(cS, &s)
 	})
 	return nontrivial, k, f
 }
 
-func runSInner(s *SScript) (nontrivial bool, f *vt.Finding) {
+func runSInner(c *vt.C, s *SScript) (nontrivial bool, f *vt.Finding) {
 	if s.Signal != sig.Metrics && s.Signal != sig.Logs || s.Scrapers < 1 || len(s.Scrapes) == 0 {
 		return false, vt.Failf("harness/script", "bad scraper script")
 	}
@@ -289,7 +289,7 @@ func runSInner(s *SScript) (nontrivial bool, f *vt.Finding) {
 			}
 			ff := vt.Failf(sg, "%s controller, round %d (%d scrapers, next consumer err=%v): %d items offered to the next consumer; receiver-level counters moved by %s, expected %s",
 				s.Signal, r, s.Scrapers, sc.SinkErr, offered, showDelta(gotRecv), showDelta(recvExp))
-			if !cS.Soft(ff, s) {
+			if !c.Soft(ff, s) {
 				return ff
 			}
 		}
@@ -337,12 +337,12 @@ func runSInner(s *SScript) (nontrivial bool, f *vt.Finding) {
 	if oc {
 		return true, vt.Failf("scraper/extra-scrape", "a scraper was asked for more rounds than ticks were sent")
 	}
-	cS.Class("signal:"+s.Signal, fmt.Sprintf("scrapers:%d", s.Scrapers))
+	c.Class("signal:"+s.Signal, fmt.Sprintf("scrapers:%d", s.Scrapers))
 	for kd := range kinds {
-		cS.Class("kind:" + kd)
+		c.Class("kind:" + kd)
 	}
 	for u := range unitSeen {
-		cS.Class("scraped_metric_points-unit:" + u)
+		c.Class("scraped_metric_points-unit:" + u)
 	}
 	outcomes := 0
 	for _, kd := range []string{"sink-accepted", "sink-refused", "scraper-error", "scraper-partial"} {
